@@ -187,3 +187,8 @@ Qed.
 
 Lemma swap_remove_length : forall i l, i < length l -> S (length (swap_remove i l)) = length l.
 Proof. intros i l Hi. now rewrite (Permutation_length (swap_remove_perm i l Hi)). Qed.
+
+Lemma NoDup_snoc {A} : forall (l : list A) x, NoDup l -> ~ In x l -> NoDup (l ++ [x]).
+Proof.
+  intros l x ND H. eapply Permutation_NoDup; [apply Permutation_cons_append|]. now constructor.
+Qed.
